@@ -56,15 +56,23 @@ def Series(params: SeriesParams) -> h.Module:
     unit_conns = {port.name: port for port in par_ports}
 
     # Create the internal series-connected signals, and concatenate them with the series ports
-    i = m.add(h.Signal(name="i", width=params.nser - 1))
+    # Their name, like that of the unit array, must not be that of a port copied from the unit.
+    i = m.add(h.Signal(name=_unused_name(m, "i"), width=params.nser - 1))
     unit_conns[series_conns[0].name] = h.Concat(series_conns[0], i)
     unit_conns[series_conns[1].name] = h.Concat(i, series_conns[1])
 
     # Create an array of unit instances
-    m.add(params.nser * params.unit(**unit_conns), name="units")
+    m.add(params.nser * params.unit(**unit_conns), name=_unused_name(m, "units"))
 
     # And return the module
     return m
+
+
+def _unused_name(m: h.Module, name: str) -> str:
+    # Get `name`, or the first of `name_`, `name__`, ... which is not an attribute of `m`
+    while name in m.namespace:
+        name += "_"
+    return name
 
 
 def _seriesconns(m: h.Module, conns: SeriesConns) -> Tuple[h.Signal, h.Signal]:
@@ -129,8 +137,8 @@ def Wrapper(m: h.Instantiable) -> h.Module:
     # Note this also serves as the connections-dict to the inner instance
     wrapper_io = {p.name: wrapper.add(deepcopy(p)) for p in _unit_io(m).values()}
 
-    # Create the inner instance
-    wrapper.add(h.Instance(name="inner", of=m)(**wrapper_io))
+    # Create the inner instance, under a name which is not that of a port copied from `m`
+    wrapper.add(h.Instance(name=_unused_name(wrapper, "inner"), of=m)(**wrapper_io))
 
     # And return the wrapper
     return wrapper
